@@ -101,6 +101,7 @@ func (m *Manager) dial(ctx context.Context, addr, dialer string, c *connection) 
 	}
 	if err != nil {
 		log.Infof("Error creating gRPC connection to %q: %v", addr, err)
+		verifAt("dial.failed", addr)
 		m.mu.Lock()
 		m.remove(addr)
 		c.err = err
@@ -165,6 +166,7 @@ func (m *Manager) Connection(ctx context.Context, addr, dialer string) (conn *gr
 		}
 		c.ref++
 		m.mu.Unlock()
+		verifAt("conn.wait", addr)
 
 		<-c.ready
 		if c.err != nil {
